@@ -10,7 +10,7 @@ code: every operation is run on the sequence as generated and on permuted copies
 (each repeated field shuffled), and the canonical (multiset) outputs are compared.
 Thorough tier: all permutations of the notes for <= 5 notes.
 
-Model side (coq/Run/C12.v): for 13 of the 17 operations the imported models are run
+Model side (coq/Run/C12.v): for 14 of the 18 operations the imported models are run
 on the same original / permuted wire-format sequences, the multiset comparison is
 done inside the extracted Coq code, and the verdict (accepted or raises; which
 permuted copies give another result) must be the verdict computed on the real code.
@@ -60,7 +60,7 @@ ASSUMPTIONS = ['outputs are compared as multisets (notes, events sorted on all f
 T = nsio.QUARTER_SEC
 OPS = ['quantize_rel', 'quantize_abs', 'extract_many', 'split_hop', 'split_time_changes', 'split_silence',
        'sustain', 'transpose', 'stretch', 'midi', 'pianoroll', 'melody', 'drums', 'chords', 'pianorollseq',
-       'performance', 'metric_performance']
+       'performance', 'metric_performance', 'shift']
 FIELDS = ('notes', 'tempos', 'tsigs', 'ksigs', 'texts', 'ccs', 'bends')
 
 
@@ -132,6 +132,8 @@ def _run(op, ns, args):
         return [_canon_seq(r), k]
     if op == 'stretch':
         return _canon_seq(sl.stretch_note_sequence(ns, args[0] / 4.0))
+    if op == 'shift':
+        return _canon_seq(sl.shift_sequence_times(ns, nsio.t2f(args[0])))
     if op == 'midi':
         from note_seq import midi_io
         pm = midi_io.note_sequence_to_pretty_midi(
@@ -215,7 +217,7 @@ def impl(case):
 
 
 # ---------------------------------------------------------------- model side (coq/Run/C12.v)
-MODEL_OPS = {'transpose': 1, 'stretch': 2, 'extract_many': 4, 'split_hop': 5, 'split_time_changes': 6,
+MODEL_OPS = {'transpose': 1, 'stretch': 2, 'shift': 3, 'extract_many': 4, 'split_hop': 5, 'split_time_changes': 6,
              'split_silence': 7, 'sustain': 8, 'melody': 9, 'drums': 10, 'chords': 11, 'pianorollseq': 12,
              'performance': 13, 'metric_performance': 13}
 FQ_OPS = ('melody', 'drums', 'chords', 'pianorollseq', 'metric_performance', 'performance')
@@ -266,6 +268,8 @@ def model_input(case):
         margs = [args[0], args[1], args[2], 0]
     elif op == 'stretch':
         margs = [args[0], 4]
+    elif op == 'shift':
+        margs = [args[0]]
     elif op == 'extract_many':
         margs = [args[0]]
     elif op == 'split_hop':
@@ -435,6 +439,8 @@ def gen_case(rng, op, max_notes=None):
         args = [rng.randint(-20, 20), rng.choice([0, 21, 40]), rng.choice([127, 108, 80]), rng.random() < 0.5]
     elif op == 'stretch':
         args = [rng.choice([1, 2, 3, 4, 6, 8, 16])]
+    elif op == 'shift':
+        args = [rng.choice([0, 1, 2, 5, 40]) * T + rng.choice([0, 0, 3])]
     elif op == 'midi':
         args = [drop]
     elif op == 'pianoroll':
@@ -470,7 +476,7 @@ def gen_case(rng, op, max_notes=None):
 
 def cases(rng, tier, n=None):
     if n is None:
-        n = 3400 if tier == "quick" else 68000
+        n = 3600 if tier == "quick" else 72000
     out = [gen_case(rng, OPS[i % len(OPS)]) for i in range(n)]
     if tier == 'thorough':
         # all permutations of the notes for sequences of <= 5 notes
